@@ -110,6 +110,13 @@ func merge[EntityT entity.Interface](def Definition, wrapper func(e *Entity) Ent
 			errors.Wrapf(err, "remote %s data is invalid", def.Typename).Error())
 	}
 
+	// The id comes from the name of the ref, controlled by the remote: make sure that it's really
+	// the id of the entity stored there, or it would be created/merged locally under another id.
+	if remoteEntity.Id() != id {
+		return entity.NewMergeInvalidStatus(id,
+			fmt.Sprintf("remote %s ref doesn't match the id of the stored %s", def.Typename, def.Typename))
+	}
+
 	localRef := fmt.Sprintf("refs/%s/%s", def.Namespace, id.String())
 
 	// SCENARIO 1
